@@ -1,0 +1,186 @@
+//go:build verif
+
+package cty
+
+// Verification hooks (build tag "verif" only; nothing here is compiled into a
+// normal build).  They expose the internal payload of a Value in a canonical
+// textual form so that an external checker can compare the implementation with
+// a formal model and judge well-formedness of every value the library returns.
+
+import (
+	"encoding/hex"
+	"fmt"
+	"math/big"
+	"sort"
+	"strings"
+
+	"github.com/zclconf/go-cty/cty/set"
+)
+
+// VerifNumWire prints a big.Float exactly: (n sign mant exp prec) with value
+// (-1)^sign * mant * 2^exp, mant odd or zero; or (inf sign).
+func VerifNumWire(f *big.Float) string {
+	if f == nil {
+		return "(bad nilfloat)"
+	}
+	sign := 0
+	if f.Signbit() {
+		sign = 1
+	}
+	if f.IsInf() {
+		return fmt.Sprintf("(inf %d)", sign)
+	}
+	if f.Sign() == 0 {
+		return fmt.Sprintf("(n %d 0 0 %d)", sign, f.Prec())
+	}
+	mant := new(big.Float)
+	exp := f.MantExp(mant)
+	mant.SetMantExp(mant, int(f.Prec()))
+	i, acc := mant.Int(nil)
+	if acc != big.Exact {
+		return "(bad inexactmant)"
+	}
+	i.Abs(i)
+	e := exp - int(f.Prec())
+	tz := i.TrailingZeroBits()
+	i.Rsh(i, tz)
+	e += int(tz)
+	return fmt.Sprintf("(n %d %s %d %d)", sign, i.String(), e, f.Prec())
+}
+
+func verifStr(s string) string { return "x" + hex.EncodeToString([]byte(s)) }
+
+func verifTri(t tristateBool) string {
+	switch t {
+	case tristateTrue:
+		return "t"
+	case tristateFalse:
+		return "f"
+	default:
+		return "u"
+	}
+}
+
+func verifBound(v Value, inc bool) string {
+	if v == NilVal {
+		return "-"
+	}
+	i := 0
+	if inc {
+		i = 1
+	}
+	return fmt.Sprintf("(%s %d)", verifPayload(v.v), i)
+}
+
+func verifRefinement(r unknownValRefinement) string {
+	switch r := r.(type) {
+	case nil:
+		return "-"
+	case *refinementString:
+		return fmt.Sprintf("(st %s %s)", verifTri(r.isNull), verifStr(r.prefix))
+	case *refinementNumber:
+		return fmt.Sprintf("(nu %s %s %s)", verifTri(r.isNull), verifBound(r.min, r.minInc), verifBound(r.max, r.maxInc))
+	case *refinementCollection:
+		return fmt.Sprintf("(co %s %d %d)", verifTri(r.isNull), r.minLen, r.maxLen)
+	case *refinementNullable:
+		return fmt.Sprintf("(nl %s)", verifTri(r.isNull))
+	default:
+		return fmt.Sprintf("(bad rfn-%T)", r)
+	}
+}
+
+func verifPayload(v interface{}) string {
+	switch v := v.(type) {
+	case nil:
+		return "null"
+	case *unknownType:
+		return "(unk " + verifRefinement(v.refinement) + ")"
+	case bool:
+		if v {
+			return "(b 1)"
+		}
+		return "(b 0)"
+	case *big.Float:
+		return VerifNumWire(v)
+	case string:
+		return "(s " + verifStr(v) + ")"
+	case []interface{}:
+		var sb strings.Builder
+		sb.WriteString("(seq")
+		for _, e := range v {
+			sb.WriteByte(' ')
+			sb.WriteString(verifPayload(e))
+		}
+		sb.WriteByte(')')
+		return sb.String()
+	case map[string]interface{}:
+		keys := make([]string, 0, len(v))
+		for k := range v {
+			keys = append(keys, k)
+		}
+		sort.Strings(keys)
+		var sb strings.Builder
+		sb.WriteString("(smap")
+		for _, k := range keys {
+			sb.WriteString(" (" + verifStr(k) + " " + verifPayload(v[k]) + ")")
+		}
+		sb.WriteByte(')')
+		return sb.String()
+	case set.Set[interface{}]:
+		ids, buckets := set.VerifBuckets(v)
+		var sb strings.Builder
+		sb.WriteString("(sset")
+		for i, id := range ids {
+			for _, e := range buckets[i] {
+				fmt.Fprintf(&sb, " (%d %s)", id, verifPayload(e))
+			}
+		}
+		sb.WriteByte(')')
+		return sb.String()
+	case marker:
+		ms := make([]string, 0, len(v.marks))
+		for m := range v.marks {
+			ms = append(ms, verifStr(fmt.Sprint(m)))
+		}
+		sort.Strings(ms)
+		return "(mk (" + strings.Join(ms, " ") + ") " + verifPayload(v.realV) + ")"
+	case *marker:
+		return "(bad ptrmarker)"
+	case big.Float:
+		return "(bad floatbyvalue)"
+	default:
+		return fmt.Sprintf("(cap %T)", v)
+	}
+}
+
+// VerifDump prints the internal payload of the value (not its type).
+func VerifDump(val Value) string { return verifPayload(val.v) }
+
+// VerifSetElementType reports the element type recorded in the rules of a
+// set-typed value's internal set, or NilType if the payload is not a set.
+func VerifSetElementType(val Value) Type {
+	v := val.v
+	if m, ok := v.(marker); ok {
+		v = m.realV
+	}
+	if s, ok := v.(set.Set[interface{}]); ok {
+		if r, ok := s.Rules().(setRules); ok {
+			return r.Type
+		}
+	}
+	return NilType
+}
+
+// VerifHash exposes the hash that set membership uses for a value.
+func VerifHash(val Value) int { return val.Hash() }
+
+// VerifHashBytes exposes the bytes that are hashed for set membership.
+func VerifHashBytes(val Value) (b []byte, panicked bool) {
+	defer func() {
+		if r := recover(); r != nil {
+			panicked = true
+		}
+	}()
+	b, _ = makeSetHashBytes(val)
+	return b, false
+}
